@@ -202,6 +202,7 @@ def run(ctx):
     # more - by interpreting the function.)
     mesher = repo.cls(MESHER)
     fg = mesher.methods["__Get_partitioned_groupElems"]
+    ctx.attempt(gmsh_session_rule, ctx)
     ctx.attempt(merge_dedup_rule, ctx)
     ctx.attempt(merge_single_rule, ctx)
     ctx.attempt(partition_interpreted_rule, ctx)
@@ -803,3 +804,52 @@ def owned_rows_rule(ctx, rid="R20.13"):
                     r.ok(f"Calc_Reaction, {tag}: {parts} on rows {rows}")
                 else:
                     r.fail(fR.qualname, f"reaction:{algo}{'+lagrange' if lag else ''}:{mpi}:{'default' if dofs is None else 'requested'}", fR.file, fR.lineno, "Calc_Reaction", f"{tag}: the result is {'' if okr else 'not '}{'reduced over ranks' if mpi > 1 else 'returned per rank'} and is not ({parts}) on the requested owned rows {rows} (zero elsewhere): rows of the ghost layer are added once per rank, or a term of the scheme is missing")
+
+
+def gmsh_session_rule(ctx, rid="R20.14"):
+    """'splitting a mesh ... is reproducible': a split must not depend on what an earlier meshing call left in the gmsh
+    session (options such as Mesh.SecondOrderIncomplete are set per element type and never reset).  Pairing rule over the
+    mesher: every method that reads element groups out of the gmsh model (calls __Get_dict_groupElems) ENDS the session -
+    gmsh.finalize() on every path that completes normally - so that the next call starts from gmsh.initialize().  The
+    sibling entry points (_Mesh_Get_Mesh, _Mesh_Get_Meshes) must agree."""
+    from ..flow import must_pass
+
+    repo = ctx.repo
+    mesher = repo.cls(MESHER)
+    r = ctx.rule(rid, "gmsh session pairing: every mesher method that extracts the element groups from the gmsh model finalizes the session on every completing path (the next split starts from a fresh session)", min_instances=2)
+
+    def calls(node, suffix):
+        return any(isinstance(n, ast.Call) and (dotted(n.func) or "").endswith(suffix) for n in ast.walk(node))
+
+    def finalizer_methods():
+        # methods of the mesher that themselves end the session on every completing path (a helper such as self._Finalize())
+        out = set()
+        for nm, g in mesher.methods.items():
+            direct = lambda st: not isinstance(st, (ast.If, ast.For, ast.While, ast.With, ast.Try)) and any(isinstance(n, ast.Call) and (dotted(n.func) or "") == "gmsh.finalize" for n in ast.walk(st))
+            if not calls(g.node, "__Get_dict_groupElems") and must_pass(g.node.body, direct):
+                out.add(g.node.name)
+        return out
+
+    helpers = finalizer_methods()
+
+    def is_finalize(st):
+        if isinstance(st, (ast.If, ast.For, ast.While, ast.With, ast.Try)):
+            return False
+        for n in ast.walk(st):
+            if isinstance(n, ast.Call):
+                d = dotted(n.func) or ""
+                if d == "gmsh.finalize" or (d.startswith("self.") and d.split(".")[-1] in helpers):
+                    return True
+        return False
+
+    for name, f in sorted(mesher.methods.items()):
+        if f.cls is not mesher or name != f.node.name and not name.endswith(f.node.name):
+            continue
+        if not calls(f.node, "__Get_dict_groupElems") or f.node.name.endswith("__Get_dict_groupElems"):
+            continue
+        r.instance(fn=f.qualname)
+        if must_pass(f.node.body, is_finalize):
+            r.ok(f"{f.name}: gmsh.finalize() on every completing path")
+        else:
+            what = "gmsh.clear() is not the end of the session: options set for one element type (second-order incomplete, recombination, ...) survive" if calls(f.node, "gmsh.clear") else "the session stays open"
+            r.fail(f.qualname, "session-not-finalized", f.file, f.lineno, f"Mesher.{f.node.name}", f"reads the element groups out of the gmsh model but does not end the gmsh session on every path ({what}): a later split of another element type inherits the options of this one and gives other groups, nodes and ownership for the same input")
